@@ -82,7 +82,7 @@ def membership_cases(label_exprs, probes):
 
 def gen_setops(ops, with_trees=False):
     def gen(tier, rng):
-        univ = U6 if tier == 'quick' else U8
+        univ = small_universe(tier)
         probes = probe_versions(univ)
         ivs = interval_texts(univ)
         exprs = [e for (_, e) in ivs]
@@ -490,7 +490,7 @@ def _den(e, obs, v, which):
 RUNNER = None      # set by check.py: cases -> [(case, impl, verdict)]
 
 def gen_minv(tier, rng):
-    univ = U6 if tier == 'quick' else U8
+    univ = small_universe(tier)
     univ = univ + [V(0, 0, 0), V(0, 0, 0, (5,)), V(0, 0, 1, (5,))]
     probes = probe_versions(univ)
     pv = [enc_version(v) for v in probes]
@@ -514,7 +514,17 @@ def gen_minv(tier, rng):
         else:
             e = random_tree(rng, valid, rng.randint(1, 2))
         cases.append(dump(['minv', e])); cases.append(dump(['sat', e, pv2]))
-    return cases, {'exhaustive': True, 'intervals': len(ivs), 'random': n, 'probe_versions': len(probes2),
+    # bounds whose text is as long as MAX_LENGTH allows and longer (Range::parse has no length limit; the successor of an
+    # exclusive prerelease bound is one identifier longer than the bound)
+    nlong = 0
+    for L in (100, 249, 250, 251, 252, 253, 254, 255, 256, 257, 258, 300):
+        t = 'a' * (L - 6)
+        pl = [enc_version(v) for v in (V(1, 0, 0, (t,)), V(1, 0, 0, (t, 0)), V(1, 0, 0, (t, 1)), V(1, 0, 0, (t + 'a',)), V(1, 0, 0, ('b',)), V(1, 0, 0),
+                                       V(1, 0, 0, ('a',)), V(1, 0, 1), V(5, 0, 0), V(0, 9, 9))]
+        for txt in ('>1.0.0-%s', '>=1.0.0-%s', '>1.0.0-%s || >=5.0.0', '>=5.0.0 || >1.0.0-%s', '>1.0.0-%s <1.0.0-b', '<1.0.0-%s', '>1.0.0-%s.0', '>1.0.0-%s <=1.0.0-%s.0'):
+            e = E_parse(txt.replace('%s', t)); nlong += 1
+            cases.append(dump(['minv', e])); cases.append(dump(['sat', e, pl]))
+    return cases, {'exhaustive': True, 'intervals': len(ivs), 'random': n, 'probe_versions': len(probes2), 'long_bounds': nlong,
                    'what': 'min_version of every one-interval range over a %d-version universe (exclusive lower bounds directly under the upper bound, unbounded-below alternatives that are '
                            'empty or prerelease-only, prerelease bounds), of %d random multi-alternative ranges and set-operation results; compared against satisfies() on %d candidate versions'
                            % (len(univ), n, len(probes2))}
